@@ -5,3 +5,6 @@ import Fir.Props.C02
 #print axioms Fir.C02.wrap_add
 #print axioms Fir.C02.clip_table_eq_packs
 #print axioms Fir.C02.clip16_eq_clamp
+#print axioms Fir.C02.simd_div8_all
+#print axioms Fir.C02.simd_div8_eq
+#print axioms Fir.C02.simd_div8_source_as_modelled
